@@ -272,6 +272,63 @@ def shadow_programs():
     return outs
 
 
+def scope_programs():
+    """Where does a binding made inside one construct end?  A binder in every kind of sub-construct,
+    next to a read or a rebinding of the same name in every sibling position, with and without an outer
+    binding of that name."""
+    A = ("read", "A")
+    b = _cat(("let", ("A",), _l(1)), A)                       # binds A, pushes it
+    b0 = ("let", ("A",), _l(1))                               # binds A only
+    inners = [("plain", b), ("paren", ("scope", (), b)), ("opt", ("opt", b)), ("opt-bare", ("opt", b0)),
+              ("sub", _cat(("sub", True, (), b), _l(5))), ("capture", ("cap", (), b)),
+              ("if-then", ("if", _l(1), b, _l(2))), ("neg", _cat(("sub", False, (), b0), _l(5)))]
+    # (a binder directly inside %( %) is left out: the manual calls the splice a plain context and does not
+    # say whether the name is visible after the string)
+    reads = [("read", A), ("rebind", _cat(("let", ("A",), _l(2)), A)), ("opt-rebind", ("opt", _cat(("let", ("A",), _l(2)), A)))]
+    sibs = [("after", lambda x, r: _cat(x, r)), ("alt-xr", lambda x, r: ("alt", [x, r])), ("alt-rx", lambda x, r: ("alt", [r, x])),
+            ("or-xr", lambda x, r: ("or", [x, r])), ("or-rx", lambda x, r: ("or", [r, x])),
+            ("alt3", lambda x, r: ("alt", [x, _l(9), r])), ("cap-alt", lambda x, r: ("cap", (), ("alt", [x, r]))),
+            ("alt-then-after", lambda x, r: _cat(("alt", [x, _l(9)]), r))]
+    outs = []
+    for on, outer in (("none", None), ("outer", ("let", ("A",), _l(7)))):
+        for iname, x in inners:
+            for rname, r in reads:
+                for sname, f in sibs:
+                    outs.append(("%s/%s/%s/%s" % (on, iname, rname, sname), _cat(outer, _l(0), f(x, r))))
+    return outs
+
+
+def work_scopes(task):
+    lo, hi = task
+    ev = Evidence()
+    drv = Driver()
+    try:
+        for name, node in scope_programs()[lo:hi]:
+            try:
+                o = run_case(drv, node, ())
+            except DriverCrash as e:
+                ev.violations.append({"property": PID, "query": render(node), "ast": repr(node), "reason": "driver crashed: " + e.report[-2500:],
+                                      "signature": "C03:scope-crash:" + name})
+                continue
+            except DriverTimeout:
+                ev.inconc("watchdog")
+                continue
+            if o.status == "inconclusive":
+                ev.inconc(o.reason.split(":")[0][:50])
+                continue
+            ev.case(key=("scope", name), nontrivial=True)
+            ev.label("scope-template")
+            if o.reason == "compile-error":
+                ev.label("scope-template:compile-error-agreed")
+            if o.status == "violation":
+                ev.violations.append({"property": PID, "query": o.text, "ast": repr(node), "reason": "%s [%s]" % (o.reason, name),
+                                      "engine_stderr": (o.reply or {}).get("stderr", b"").decode("latin-1")[:600],
+                                      "signature": "C03:scope:" + name})
+    finally:
+        drv.kill()
+    return ev
+
+
 def work_shadow(task):
     lo, hi = task
     ev = Evidence()
@@ -310,6 +367,9 @@ def main(tier, seed):
     n, depth = (24000, 3) if tier == "quick" else (200000, 3)
     ev = Evidence()
     ev.merge(work_doc(None))
+    nsc = len(scope_programs())
+    ev.merge(run_pool(work_scopes, [(lo, lo + 40) for lo in range(0, nsc, 40)]))
+    ev.extra["scope_templates"] = nsc
     nsh = len(shadow_programs())
     ev.merge(run_pool(work_shadow, [(lo, lo + 40) for lo in range(0, nsh, 40)]))
     ev.extra["shadow_templates"] = nsh
@@ -324,7 +384,8 @@ def main(tier, seed):
                           "injected rebinds detected": ev.labels.get("injected-rebound-detected", 0) > 5,
                           "blocks with >= 2 up-values": ev.labels.get("upvalues:2", 0) + ev.labels.get("upvalues:3", 0) > 20,
                           "shadowing": ev.labels.get("has:shadow", 0) > 50,
-                          "block-in-block templates": ev.labels.get("shadow-template", 0) > 300})
+                          "block-in-block templates": ev.labels.get("shadow-template", 0) > 300,
+                          "scope templates": ev.labels.get("scope-template", 0) > 300 and ev.labels.get("scope-template:compile-error-agreed", 0) > 20})
 
 
 def replay(path):
